@@ -33,6 +33,8 @@ def run(res, only=None):
     e = os.path.join(wd, "layout.out")
     res.add_tlc(core.run_tlc("MC_C06", res.tier, e, workers=4, extra_constants={"MaxHist": 2}))
     core.replay_bin(res, "tok", e, allc, env_extra={"HX_PROP": "C07"}, tag="layout", expect_ops=["mat:read:display", "mat:read:debug"])
+    # entry-wise matrix and component-wise quaternion arithmetic on random bit patterns: the correctly rounded result in every build
+    core.record_and_validate(res, "mat", allc, draws=1 if res.tier == "quick" else 20, chunks=2 if res.tier == "quick" else 6, expect_kinds=("f1", "f2"))
     # (2) random (off-lattice) chains of the SIMD-backed types: TLC-generated programs executed in every build with the same
     #     seeds; traces are compared by TLC: bit for bit across CPU features, within re-association slack SIMD vs scalar
     pr = os.path.join(wd, "chains.out")
